@@ -47,7 +47,24 @@ class StrError(Exception):
         return "custom-str"
 
 
-EXC_CLASSES = {
+class _Classes(dict):
+    """(the library's own RenderError and an application class deriving
+    from it are looked up when first asked for: this module does not import
+    the code under test)"""
+
+    def __missing__(self, name):
+        if name in ("RenderError", "AppRenderError"):
+            from chameleon.exc import RenderError
+
+            class AppRenderError(RenderError, LookupError):
+                pass
+            self["RenderError"] = RenderError
+            self["AppRenderError"] = AppRenderError
+            return self[name]
+        raise KeyError(name)
+
+
+EXC_CLASSES = _Classes({
     c.__name__: c for c in (
         AttributeError, NameError, LookupError, KeyError, IndexError,
         TypeError, ValueError, UnicodeError, ZeroDivisionError, RuntimeError,
@@ -55,7 +72,7 @@ EXC_CLASSES = {
         FileNotFoundError, TimeoutError, RecursionError, ArithmeticError,
         NotImplementedError, KeyboardInterrupt, SystemExit, GeneratorExit,
         Exception, Warning, UserWarning)
-}
+})
 
 PURE_BUILTINS = ("len", "str", "int", "list", "sorted", "bool", "repr",
                  "tuple", "max", "min", "sum", "abs")
